@@ -13,6 +13,15 @@ package main
 //	id1 <Q> <R1,..> <T1,..> <TAXO>    obitag.Identify                                     -> "taxid bestmatch count"
 //	id2 <Q> <R1,..> <T1,..> <TAXO>    obitag2.FindClosests + Obitag2RefDB.BestConsensus on a data base indexed by
 //	                                  obirefidx.IndexSequence (first stage of obitag2.Identify)
+//	sl1|sl2 <Q> <R1,..> <T1,..> <TAXO> <I1;I2;..>  obitag.Identify / obitag2.FindClosests + BestConsensus on references
+//	                                  carrying the GIVEN indices Ij = k=hex(text),... ("_" empty map, "-" no index,
+//	                                  sl2 only): the selection loop on arbitrary indices, fallback branches, blank and
+//	                                  malformed entries, non-termination (observed through the loop's own debug line)
+//	id3 <Q> <R1,..> <T1,..> <TAXO> <H> <C1,..>  obitag2.CLIAssignTaxonomy on a family-indexed data base (H = one 0/1 per
+//	                                  reference: reffamidx_clusterhead; Ck = Count(); family_taxid by the real SetFamily;
+//	                                  obitag_ref_index of the cluster heads and reffamidx_in of the families by the real
+//	                                  IndexSequence), the query pushed through the returned iterator: exact-match table and
+//	                                  two-stage obitag2.Identify                      -> "taxid bestmatch weight exact|lcs"
 //	qg  <A> <maxlen>                  every B over {a,c,g,t} of length <= maxlen against A   -> "count minslack sumslack"
 //	qgn <A> <k>                       every B obtained from A by k (1 or 2) single-base edits -> "count minslack sumslack"
 //	                                  slack = common4mers + 3 + 4*distance - max(|A|,|B|)  (the q-gram bound says >= 0)
@@ -36,12 +45,14 @@ import (
 	"math"
 	"math/rand"
 	"os"
+	"runtime"
 	"sort"
 	"strconv"
 	"strings"
 	"time"
 
 	"git.metabarcoding.org/obitools/obitools4/obitools4/pkg/obialign"
+	"git.metabarcoding.org/obitools/obitools4/obitools4/pkg/obiiter"
 	"git.metabarcoding.org/obitools/obitools4/obitools4/pkg/obikmer"
 	"git.metabarcoding.org/obitools/obitools4/obitools4/pkg/obiseq"
 	"git.metabarcoding.org/obitools/obitools4/obitools4/pkg/obitax"
@@ -49,6 +60,7 @@ import (
 	"git.metabarcoding.org/obitools/obitools4/obitools4/pkg/obitools/obitag"
 	"git.metabarcoding.org/obitools/obitools4/obitools4/pkg/obitools/obitag2"
 	"git.metabarcoding.org/obitools/obitools4/obitools4/pkg/obiutils"
+	log "github.com/sirupsen/logrus"
 )
 
 type c15 struct{}
@@ -250,9 +262,127 @@ func (p c15Pair) dist() int { return p.ali - p.lcs }
 type c15Ctx struct {
 	fails []Fail
 	seen  map[string]bool
+	iupac bool // some sequence of the case holds a letter other than a c g t
+	hypKO bool // iupac case on which a kernel hypothesis of the model (hyp.d1or0, hyp.bounded-lcs) does not hold
+}
+
+// done: an IUPAC case on which the real kernels do not behave as the model reads them (D1Or0 compares bytes,
+// FastLCSScore matches ambiguity codes) is outside the domain of the model: it is not compared (printed as an
+// operation the model does not know, which it answers by bad-op; Exec accepts the prefixed line on replay); the
+// oracle failures found on the real code are reported (signature suffix .iupac)
+func (x *c15Ctx) done(base, res string) (string, []Fail) {
+	if x.iupac && x.hypKO {
+		stat("iupac:kernel-hypothesis-fails:not-compared")
+		caseOverride = "iupac-kernel-hyp " + base
+		caseTrivial = true
+		return "bad-op", x.fails
+	}
+	return res, x.fails
+}
+
+// spin detection for the selection loop of Identify / BestConsensus: every outer iteration that does not find an
+// entry logs "Problem in identification line" at debug level; the model decides the loop within 3 iterations, so 64
+// such lines in one call is the loop repeating itself: the hook ends the goroutine (runtime.Goexit) and the case is
+// the outcome "hang"
+var (
+	c15HookOn    bool
+	c15SpinCount int
+	c15Spin      bool
+)
+
+type c15Hook struct{}
+
+func (c15Hook) Levels() []log.Level { return []log.Level{log.DebugLevel} }
+func (c15Hook) Fire(e *log.Entry) error {
+	if c15HookOn && strings.HasPrefix(e.Message, "Problem in identification line") {
+		c15SpinCount++
+		if c15SpinCount > 64 {
+			c15Spin = true
+			runtime.Goexit()
+		}
+	}
+	return nil
+}
+
+func init() { log.AddHook(c15Hook{}) }
+
+type c15Given struct {
+	isNil bool
+	m     map[int]string
+}
+
+func c15ParseGiven(s string) ([]c15Given, bool) {
+	var out []c15Given
+	for _, w := range strings.Split(s, ";") {
+		switch w {
+		case "-":
+			out = append(out, c15Given{isNil: true})
+			continue
+		case "_":
+			out = append(out, c15Given{m: map[int]string{}})
+			continue
+		}
+		m := map[int]string{}
+		for _, kv := range strings.Split(w, ",") {
+			ab := strings.Split(kv, "=")
+			if len(ab) != 2 {
+				return nil, false
+			}
+			k, err := strconv.Atoi(ab[0])
+			v, ok := unhx(ab[1])
+			if err != nil || k < 0 || strconv.Itoa(k) != ab[0] || !ok || ab[1] == "" || ab[1] != strings.ToLower(ab[1]) {
+				return nil, false
+			}
+			for _, b := range v {
+				if b >= 0x80 {
+					return nil, false
+				}
+			}
+			if _, dup := m[k]; dup {
+				return nil, false
+			}
+			m[k] = string(v)
+		}
+		out = append(out, c15Given{m: m})
+	}
+	return out, true
+}
+
+func c15ShowGiven(g []c15Given) string {
+	p := make([]string, len(g))
+	for i, x := range g {
+		switch {
+		case x.isNil:
+			p[i] = "-"
+		case len(x.m) == 0:
+			p[i] = "_"
+		default:
+			keys := make([]int, 0, len(x.m))
+			for k := range x.m {
+				keys = append(keys, k)
+			}
+			sort.Ints(keys)
+			kv := make([]string, len(keys))
+			for j, k := range keys {
+				kv[j] = fmt.Sprintf("%d=%s", k, hx([]byte(x.m[k])))
+			}
+			p[i] = strings.Join(kv, ",")
+		}
+	}
+	return strings.Join(p, ";")
 }
 
 func (x *c15Ctx) addf(sig, format string, a ...interface{}) {
+	if x.iupac {
+		// a symbol outside a c g t in the query or a reference: outside the assumptions of the losslessness theorems
+		// (Encode4mer counts it as a, D1Or0 compares bytes, FastLCSScore matches ambiguity codes); the property text
+		// quantifies over every query and data base, so the failure is reported, under the signature + ".iupac"
+		// (known finding C15-iupac-prefilter)
+		if strings.HasPrefix(sig, "hyp.d1or0") || strings.HasPrefix(sig, "hyp.bounded-lcs") {
+			x.hypKO = true
+		}
+		sig += ".iupac"
+	}
 	if x.seen == nil {
 		x.seen = map[string]bool{}
 	}
@@ -361,11 +491,7 @@ func c15Frac(v float64, maxDen int) string {
 func c15BuildTaxo(t [][2]int) *obitax.Taxonomy {
 	tax := obitax.NewTaxonomy()
 	for _, e := range t {
-		rank := "no rank"
-		if e[0]%3 == 0 {
-			rank = "family"
-		}
-		if _, err := tax.AddNewTaxa(e[0], e[1], rank, false, true); err != nil {
+		if _, err := tax.AddNewTaxa(e[0], e[1], c15Rank(e[0]), false, true); err != nil {
 			return nil
 		}
 	}
@@ -374,10 +500,25 @@ func c15BuildTaxo(t [][2]int) *obitax.Taxonomy {
 	}
 	class := "scientific name"
 	for _, e := range t {
-		name := fmt.Sprintf("taxon %d", e[0])
+		name := c15Name(e[0])
 		tax.AddNewName(e[0], &name, &class)
 	}
 	return tax
+}
+
+// c15Name: scientific name given to a taxon (some contain the separator of the index entries)
+func c15Name(t int) string {
+	if t%5 == 0 {
+		return fmt.Sprintf("sp@%d", t)
+	}
+	return fmt.Sprintf("taxon %d", t)
+}
+
+func c15Rank(t int) string {
+	if t%3 == 0 {
+		return "family"
+	}
+	return "no rank"
 }
 
 func c15IdxOf(id string) string {
@@ -394,14 +535,13 @@ func c15ShowIndex(x *c15Ctx, idx map[int]string, par map[int]int) string {
 	for _, k := range keys {
 		parts := strings.Split(idx[k], "@")
 		t, err := strconv.Atoi(parts[0])
-		rank := "no rank"
-		if t%3 == 0 {
-			rank = "family"
-		}
-		if err != nil || len(parts) != 3 || parts[1] != fmt.Sprintf("taxon %d", t) || parts[2] != rank {
+		if err != nil || idx[k] != fmt.Sprintf("%d@%s@%s", t, c15Name(t), c15Rank(t)) {
 			x.addf("ix.format", "index entry %d -> %q is not taxid@scientific name@rank of a taxon", k, idx[k])
 		}
-		out = append(out, fmt.Sprintf("%d:%d", k, t))
+		if _, known := par[t]; !known {
+			x.addf("ix.format", "index entry %d -> %q: taxid not in the taxonomy", k, idx[k])
+		}
+		out = append(out, fmt.Sprintf("%d:%s", k, idx[k]))
 	}
 	if len(out) == 0 {
 		return "empty"
@@ -417,6 +557,7 @@ func (c15) Exec(c string) (string, []Fail) {
 	if i := strings.Index(c, " | "); i >= 0 {
 		base = c[:i]
 	}
+	base = strings.TrimPrefix(base, "iupac-kernel-hyp ")
 	w := strings.Fields(base)
 	if len(w) == 0 {
 		return "bad-op", nil
@@ -484,6 +625,61 @@ func (c15) Exec(c string) (string, []Fail) {
 			return "bad-op", nil
 		}
 		return c15ExecID(x, op, base, q, refs, taxids, taxo, par)
+	case "sl1", "sl2":
+		if len(w) != 6 {
+			return "bad-op", nil
+		}
+		q, ok1 := unhx(w[1])
+		refs, ok2 := c15ParseList(w[2])
+		taxids, ok3 := c15ParseInts(w[3])
+		taxo, ok4 := c15ParseTaxo(w[4])
+		given, ok5 := c15ParseGiven(w[5])
+		if !ok1 || !ok2 || !ok3 || !ok4 || !ok5 || len(taxids) != len(refs) || len(given) != len(refs) || len(refs) == 0 {
+			return "bad-op", nil
+		}
+		par, wf := c15WellFormed(taxo)
+		if !wf {
+			return "bad-op", nil
+		}
+		for _, t := range taxids {
+			if _, ok := par[t]; !ok {
+				return "bad-op", nil
+			}
+		}
+		for _, g := range given {
+			if g.isNil && op == "sl1" {
+				return "bad-op", nil
+			}
+		}
+		return c15ExecSL(x, op, base, q, refs, taxids, taxo, par, given)
+	case "id3":
+		if len(w) != 7 {
+			return "bad-op", nil
+		}
+		q, ok1 := unhx(w[1])
+		refs, ok2 := c15ParseList(w[2])
+		taxids, ok3 := c15ParseInts(w[3])
+		taxo, ok4 := c15ParseTaxo(w[4])
+		counts, ok5 := c15ParseInts(w[6])
+		if !ok1 || !ok2 || !ok3 || !ok4 || !ok5 || len(taxids) != len(refs) || len(counts) != len(refs) || len(w[5]) != len(refs) ||
+			len(refs) == 0 || strings.Trim(w[5], "01") != "" || !c15Acgt(q) || len(q) == 0 {
+			return "bad-op", nil
+		}
+		for _, r := range refs {
+			if !c15Acgt(r) || len(r) == 0 {
+				return "bad-op", nil
+			}
+		}
+		par, wf := c15WellFormed(taxo)
+		if !wf {
+			return "bad-op", nil
+		}
+		for _, t := range taxids {
+			if _, ok := par[t]; !ok {
+				return "bad-op", nil
+			}
+		}
+		return c15ExecID3(x, base, q, refs, taxids, taxo, par, w[5], counts)
 	case "qg", "qgn":
 		if len(w) != 3 {
 			return "bad-op", nil
@@ -537,8 +733,21 @@ func c15Brute(ps []c15Pair) (int, []int) {
 	return best, set
 }
 
+func c15SetIupac(x *c15Ctx, q []byte, refs [][]byte) {
+	x.iupac = !c15Acgt(q)
+	for _, r := range refs {
+		if !c15Acgt(r) {
+			x.iupac = true
+		}
+	}
+	if x.iupac {
+		stat("gen:iupac-case")
+	}
+}
+
 func c15ExecFC(x *c15Ctx, op, base string, q []byte, refs [][]byte) (string, []Fail) {
 	stat("op:" + op)
+	c15SetIupac(x, q, refs)
 	ps, rowdata := x.row(q, refs)
 	caseOverride = base + " | " + rowdata
 	rs, counts := c15MakeRefs(refs)
@@ -571,11 +780,11 @@ func c15ExecFC(x *c15Ctx, op, base string, q []byte, refs [][]byte) (string, []F
 	if len(refs) == 0 {
 		stat("fc:empty-db")
 		caseTrivial = true
-		return res, x.fails
+		return x.done(base, res)
 	}
 	if res == "panic" || res == "hang" || res == "fatal" {
 		x.addf(op+"."+res, "FindClosests: %s", res)
-		return res, x.fails
+		return x.done(base, res)
 	}
 	wantD, wantSet := c15Brute(ps)
 	sorted := append([]int{}, gotIdx...)
@@ -592,7 +801,30 @@ func c15ExecFC(x *c15Ctx, op, base string, q []byte, refs [][]byte) (string, []F
 	if wantD <= 1 {
 		stat("fc:best<=1")
 	}
-	return res, x.fails
+	if len(q) < 4 {
+		stat("fc:query<4")
+	}
+	// the pruning threshold at its boundary: a best reference sharing exactly |q|-3-4*d 4-mers (q-gram bound tight)
+	for _, b := range wantSet {
+		if ps[b].cw == max(0, len(q)-3-4*wantD) {
+			stat("fc:best-at-threshold")
+			break
+		}
+	}
+	// unstable order: several candidates share the count of a best reference
+	for _, b := range wantSet {
+		n := 0
+		for _, p := range ps {
+			if p.cw == ps[b].cw {
+				n++
+			}
+		}
+		if n > 1 {
+			stat("fc:best-in-count-tie")
+			break
+		}
+	}
+	return x.done(base, res)
 }
 
 // c15Class names the input class of a failing search (stable signature)
@@ -675,6 +907,7 @@ func c15CheckIndex(x *c15Ctx, sig string, idx map[int]string, ps []c15Pair, taxi
 
 func c15ExecIX(x *c15Ctx, base string, s int, refs [][]byte, taxids []int, taxo [][2]int, par map[int]int) (string, []Fail) {
 	stat("op:ix")
+	c15SetIupac(x, nil, refs)
 	ps, rowdata := x.row(refs[s], refs)
 	caseOverride = base + " | " + rowdata
 	rs, counts := c15MakeRefs(refs)
@@ -690,7 +923,7 @@ func c15ExecIX(x *c15Ctx, base string, s int, refs [][]byte, taxids []int, taxo 
 	})
 	if res == "panic" || res == "hang" || res == "fatal" {
 		x.addf("ix."+res, "IndexSequence: %s", res)
-		return res, x.fails
+		return x.done(base, res)
 	}
 	c15CheckIndex(x, "ix", idx, ps, taxids, par, len(refs[s]))
 	if len(idx) > 1 {
@@ -699,11 +932,12 @@ func c15ExecIX(x *c15Ctx, base string, s int, refs [][]byte, taxids []int, taxo 
 	if len(idx) > 2 {
 		stat("ix:entries>2")
 	}
-	return res, x.fails
+	return x.done(base, res)
 }
 
 func c15ExecID(x *c15Ctx, op, base string, q []byte, refs [][]byte, taxids []int, taxo [][2]int, par map[int]int) (string, []Fail) {
 	stat("op:" + op)
+	c15SetIupac(x, q, refs)
 	ps, rowdata := x.row(q, refs)
 	aug := base + " | " + rowdata
 	rows := make([][]c15Pair, len(refs))
@@ -753,11 +987,11 @@ func c15ExecID(x *c15Ctx, op, base string, q []byte, refs [][]byte, taxids []int
 		return fmt.Sprintf("%d %s %d", assigned, c15IdxOf(bestmatch), bests.Len())
 	})
 	if len(refs) == 0 {
-		return res, x.fails
+		return x.done(base, res)
 	}
 	if res == "panic" || res == "hang" || res == "fatal" {
 		x.addf(op+"."+res, "Identify: %s", res)
-		return res, x.fails
+		return x.done(base, res)
 	}
 	_, wantSet := c15Brute(ps)
 	for _, b := range wantSet {
@@ -767,6 +1001,248 @@ func c15ExecID(x *c15Ctx, op, base string, q []byte, refs [][]byte, taxids []int
 	}
 	if assigned != 1 {
 		stat(op + ":assigned-below-root")
+	}
+	return x.done(base, res)
+}
+
+// c15ExecSL: the selection loop on given indices
+func c15ExecSL(x *c15Ctx, op, base string, q []byte, refs [][]byte, taxids []int, taxo [][2]int, par map[int]int, given []c15Given) (string, []Fail) {
+	stat("op:" + op)
+	c15SetIupac(x, q, refs)
+	_, rowdata := x.row(q, refs)
+	caseOverride = base + " | " + rowdata
+	rs, counts := c15MakeRefs(refs)
+	tax := c15BuildTaxo(taxo)
+	if tax == nil {
+		return "bad-op", nil
+	}
+	taxa := c15Taxa(tax, taxids)
+	for j := range rs {
+		if !given[j].isNil {
+			m := map[int]string{}
+			for k, v := range given[j].m {
+				m[k] = v
+			}
+			rs[j].SetOBITagRefIndex(m)
+		}
+	}
+	qs := c15Seq("q", q)
+	c15SpinCount, c15Spin, c15HookOn = 0, false, true
+	log.SetLevel(log.DebugLevel)
+	res := guardT(30*time.Second, func() string {
+		if op == "sl1" {
+			obitag.Identify(qs, rs, counts, taxa, tax, false)
+			bm, _ := qs.GetStringAttribute("obitag_bestmatch")
+			n, _ := qs.GetIntAttribute("obitag_match_count")
+			return fmt.Sprintf("%d %s %d", qs.Taxid(), c15IdxOf(bm), n)
+		}
+		db := &obitag2.Obitag2RefDB{Taxonomy: tax}
+		bests, differences, identity, bestmatch, _ := obitag2.FindClosests(qs, rs, counts, false)
+		var taxon *obitax.TaxNode
+		if identity >= 0.5 && differences >= 0 {
+			taxon = db.BestConsensus(bests, differences, "obitag_ref_index")
+		} else {
+			taxon, _ = tax.Taxon(1)
+		}
+		return fmt.Sprintf("%d %s %d", taxon.Taxid(), c15IdxOf(bestmatch), bests.Len())
+	})
+	log.SetLevel(log.PanicLevel)
+	c15HookOn = false
+	if c15Spin {
+		res = "hang"
+	}
+	switch res {
+	case "hang":
+		stat("sl:hang")
+	case "panic":
+		stat("sl:panic")
+	case "fatal":
+		stat("sl:fatal")
+	default:
+		stat("sl:assigned")
+	}
+	return x.done(base, res)
+}
+
+// c15Block: the sections of one searched list (cluster heads or one family) for the model: the row of the query and the
+// row of every member against the members
+func (x *c15Ctx) block(q []byte, refs [][]byte, members []int) ([]c15Pair, string) {
+	mrefs := make([][]byte, len(members))
+	for i, m := range members {
+		mrefs[i] = refs[m]
+	}
+	ps, rd := x.row(q, mrefs)
+	out := " | " + rd
+	for i := range mrefs {
+		_, rd := x.row(mrefs[i], mrefs)
+		out += " | " + rd
+	}
+	return ps, out
+}
+
+// c15ExecID3: obitag2.CLIAssignTaxonomy + Identify on a data base prepared as obireffamidx does (with the real pieces)
+func c15ExecID3(x *c15Ctx, base string, q []byte, refs [][]byte, taxids []int, taxo [][2]int, par map[int]int, heads string, cnts []int) (string, []Fail) {
+	stat("op:id3")
+	tax := c15BuildTaxo(taxo)
+	if tax == nil {
+		return "bad-op", nil
+	}
+	rs, counts := c15MakeRefs(refs)
+	var clusters []int
+	famOrder := []int{}
+	famMembers := map[int][]int{}
+	prep := guardT(30*time.Second, func() string {
+		for i := range rs {
+			rs[i].SetTaxid(taxids[i])
+			rs[i].SetCount(cnts[i])
+			rs[i].SetAttribute("reffamidx_clusterhead", heads[i] == '1')
+			tax.SetFamily(rs[i]) // family_taxid (-1: no family), as obireffamidx does
+			f, _ := rs[i].GetIntAttribute("family_taxid")
+			if _, ok := famMembers[f]; !ok {
+				famOrder = append(famOrder, f)
+			}
+			famMembers[f] = append(famMembers[f], i)
+			if heads[i] == '1' {
+				clusters = append(clusters, i)
+			}
+		}
+		index := func(members []int, set func(s *obiseq.BioSequence, idx map[int]string)) {
+			sl := make(obiseq.BioSequenceSlice, len(members))
+			km := make([]*obikmer.Table4mer, len(members))
+			ta := make(obitax.TaxonSet, len(members))
+			for i, m := range members {
+				sl[i], km[i] = rs[m], counts[m]
+				ta[i], _ = tax.Taxon(taxids[m])
+			}
+			for i := range members {
+				set(sl[i], obirefidx.IndexSequence(i, sl, &km, &ta, tax))
+			}
+		}
+		index(clusters, func(s *obiseq.BioSequence, idx map[int]string) { s.SetOBITagRefIndex(idx) })
+		for _, f := range famOrder {
+			index(famMembers[f], func(s *obiseq.BioSequence, idx map[int]string) { s.SetAttribute("reffamidx_in", idx) })
+		}
+		return "ok"
+	})
+	if prep != "ok" {
+		x.addf("id3.prepare."+prep, "preparation of the data base: %s", prep)
+		return prep, x.fails
+	}
+	// sections for the model
+	aug := base + " | C " + c15Ints(clusters)
+	psC, sec := x.block(q, refs, clusters)
+	aug += sec
+	psF := map[int][]c15Pair{}
+	for _, f := range famOrder {
+		if f < 0 {
+			continue
+		}
+		aug += fmt.Sprintf(" | F %d %s", f, c15Ints(famMembers[f]))
+		var sec string
+		psF[f], sec = x.block(q, refs, famMembers[f])
+		aug += sec
+	}
+	caseOverride = aug
+	// does the query hit the exact-match table?
+	var same []int
+	for i, r := range refs {
+		if string(r) == string(q) {
+			same = append(same, i)
+		}
+	}
+	qs := c15Seq("q", q)
+	// A panic inside the worker goroutines of the iterator cannot be recovered: the same steps are first run here, with
+	// the real public pieces, to know whether Identify will reach a nil dereference / index out of range; such a case
+	// is answered "panic" without going through the pipeline (counted)
+	lastSet, lastPs := clusters, psC
+	predicted := ""
+	if len(same) == 0 {
+		if len(clusters) == 0 {
+			predicted = "panic" // references[o[0]] on the empty list of cluster heads
+		} else {
+			cl := make(obiseq.BioSequenceSlice, len(clusters))
+			kc := make([]*obikmer.Table4mer, len(clusters))
+			for i, m := range clusters {
+				cl[i], kc[i] = rs[m], counts[m]
+			}
+			db := &obitag2.Obitag2RefDB{Taxonomy: tax}
+			pre := guardT(30*time.Second, func() string {
+				bests, differences, identity, _, _ := obitag2.FindClosests(c15Seq("q", q), cl, kc, false)
+				if identity >= 0.5 && differences >= 0 {
+					ft := db.BestConsensus(bests, differences, "obitag_ref_index")
+					if fam := ft.TaxonAtRank("family"); fam != nil {
+						if _, ok := famMembers[fam.Taxid()]; !ok {
+							return "panic" // (*db.Families)[ftaxid] is nil
+						}
+						lastSet, lastPs = famMembers[fam.Taxid()], psF[fam.Taxid()]
+						stat("id3:family-stage")
+					} else {
+						stat("id3:no-family")
+					}
+				} else {
+					stat("id3:identity<0.5")
+				}
+				return ""
+			})
+			predicted = pre
+		}
+	} else {
+		stat("id3:exact-hit")
+	}
+	if predicted != "" {
+		stat("id3:predicted-" + predicted + ":pipeline-not-run")
+		return predicted, x.fails
+	}
+	assigned, weight, method := -1, -1, ""
+	res := guardT(30*time.Second, func() string {
+		out := obitag2.CLIAssignTaxonomy(obiiter.IBatchOver("q", obiseq.BioSequenceSlice{qs}, 1), rs, tax)
+		n := 0
+		var got *obiseq.BioSequence
+		for out.Next() {
+			for _, s := range out.Get().Slice() {
+				got = s
+				n++
+			}
+		}
+		if n != 1 {
+			return fmt.Sprintf("%d-sequences", n)
+		}
+		assigned = got.Taxid()
+		bm, _ := got.GetStringAttribute("obitag_bestmatch")
+		weight, _ = got.GetIntAttribute("obitag_match_count")
+		method, _ = got.GetStringAttribute("obitag_similarity_method")
+		m := "lcs"
+		if method == "exact match" {
+			m = "exact"
+		}
+		return fmt.Sprintf("%d %s %d %s", assigned, c15IdxOf(bm), weight, m)
+	})
+	if res == "panic" || res == "hang" || res == "fatal" {
+		x.addf("id3."+res, "CLIAssignTaxonomy / Identify: %s", res)
+		return res, x.fails
+	}
+	if len(same) > 0 {
+		// the exact-match table: LCA of the taxa of ALL the references holding the bytes of the query, summed counts
+		var tx []int
+		w := 0
+		for _, i := range same {
+			tx = append(tx, taxids[i])
+			w += cnts[i]
+		}
+		if want := c15LcaSet(par, tx); want != assigned || method != "exact match" {
+			x.addf("id3.exact-not-lca", "query = references %v of taxa %v: LCA %d, assigned %d (%s)", same, tx, want, assigned, method)
+		}
+		if w != weight {
+			x.addf("id3.exact-weight", "sum of the counts %d, obitag_match_count %d", w, weight)
+		}
+	} else {
+		// the assigned taxon is an ancestor-or-self of the taxon of every best reference of the list searched last
+		_, wantSet := c15Brute(lastPs)
+		for _, b := range wantSet {
+			if !c15IsAnc(par, assigned, taxids[lastSet[b]]) {
+				x.addf("id3.assigned-not-ancestor", "assigned taxon %d is not an ancestor-or-self of taxon %d of best reference %d of the list searched last", assigned, taxids[lastSet[b]], lastSet[b])
+			}
+		}
 	}
 	return res, x.fails
 }
@@ -1029,6 +1505,60 @@ func (g *c15Gen) taxids(t [][2]int, n int) []int {
 	return out
 }
 
+// iupacify: one to three bases replaced by ambiguity codes
+func (g *c15Gen) iupacify(s []byte) []byte {
+	b := append([]byte{}, s...)
+	for i := 0; i < 1+g.rng.Intn(3) && len(b) > 0; i++ {
+		b[g.rng.Intn(len(b))] = "nrywsmkbdhv"[g.rng.Intn(11)]
+	}
+	return b
+}
+
+// given: an arbitrary index for the selection loop: mostly well-formed entries at small keys, sometimes blank or
+// malformed entries, keys around the bounds of the two scans, an empty map, no index at all
+func (g *c15Gen) given(t [][2]int, allowNil bool) c15Given {
+	switch g.rng.Intn(16) {
+	case 0:
+		return c15Given{m: map[int]string{}}
+	case 1:
+		if allowNil {
+			return c15Given{isNil: true}
+		}
+	}
+	m := map[int]string{}
+	for i := 0; i < 1+g.rng.Intn(4); i++ {
+		var k int
+		switch g.rng.Intn(8) {
+		case 0:
+			k = []int{999, 1000, 1001, 1002, 2000}[g.rng.Intn(5)]
+		case 1:
+			k = 10 + g.rng.Intn(60)
+		default:
+			k = g.rng.Intn(8)
+		}
+		id := t[g.rng.Intn(len(t))][0]
+		v := fmt.Sprintf("%d@%s@%s", id, c15Name(id), c15Rank(id))
+		switch g.rng.Intn(24) {
+		case 0:
+			v = ""
+		case 1:
+			v = "@" + c15Name(id) + "@" + c15Rank(id)
+		case 2:
+			v = "x" + v
+		case 3:
+			v = "+" + v
+		case 4:
+			v = "00" + v
+		case 5:
+			v = fmt.Sprintf("%d", id)
+		case 6:
+			v = fmt.Sprintf("%d@a@b", 100000+id)
+		}
+		m[k] = v
+	}
+	return c15Given{m: m}
+}
+
 func c15Hex(s string) string { return hx([]byte(s)) }
 
 func c15Short(l []int) string {
@@ -1114,7 +1644,7 @@ func (c15) Gen(rng *rand.Rand, tier string, emit func(string)) {
 		"id1 " + c15Hex("acgtacgtac") + " " + c15Hex("acgtacgtac") + "," + c15Hex("acgtacgtaa") + "," + c15Hex("acgtaggtaa") + " 4,5,3 1:1,2:1,3:1,4:2,5:2",
 		"id1 " + c15Hex("acgtacgtaa") + " " + c15Hex("acgtacgtac") + "," + c15Hex("acgtacgtag") + "," + c15Hex("acgtaggtaa") + " 4,5,3 1:1,2:1,3:1,4:2,5:2",
 		"id2 " + c15Hex("acgtacgtaa") + " " + c15Hex("acgtacgtac") + "," + c15Hex("acgtacgtag") + "," + c15Hex("acgtaggtaa") + " 4,5,3 1:1,2:1,3:1,4:2,5:2",
-		"id1 " + c15Hex("tttttttttt") + " " + c15Hex("acgacgacga") + " 2 1:1,2:1", // identity < 0.5: root
+		"id1 " + c15Hex("tttttttttt") + " " + c15Hex("acgacgacga") + " 2 1:1,2:1",     // identity < 0.5: root
 		"id1 " + c15Hex("acgtacgtacgtacgt") + " " + c15Hex("acgtacgt") + " 2 1:1,2:1", // identity 0.5, distance = |ref|
 		"qg " + c15Hex("acgtacg") + " 4",
 		"qg - 3",
@@ -1148,6 +1678,71 @@ func (c15) Gen(rng *rand.Rand, tier string, emit func(string)) {
 		emit("fc2 " + c15Hex(q) + " " + c15List(refs))
 	}
 
+	// ---- selection loop on given indices (sl1 = obitag.Identify, sl2 = obitag2 FindClosests + BestConsensus): the
+	// query is at distance 1 of the single reference
+	{
+		Q, R, T := c15Hex("acgtacgtaa"), c15Hex("acgtacgtac"), "1:1,2:1,3:1,4:2,5:2"
+		for _, op := range []string{"sl1", "sl2"} {
+			for _, ix := range []string{
+				"0=" + c15Hex("4@taxon 4@no rank"),            // downward scan
+				"1=" + c15Hex("4@taxon 4@no rank"),            // hit at the observed distance
+				"5=" + c15Hex("2@taxon 2@no rank"),            // upward scan
+				"1000=" + c15Hex("5@@"),                       // last key of the upward scan
+				"1001=" + c15Hex("2@x@y"),                     // found by the downward scan of the second outer iteration
+				"1002=" + c15Hex("2@x@y"),                     // never found: the loop spins
+				"_",                                           // empty index: spins
+				"1=-",                                         // blank entry at the observed distance: spins
+				"0=" + c15Hex("@x@y"),                         // blank entry at key 0 below it: loop left by d < 0, Atoi("")
+				"1=-,0=" + c15Hex("4@a@b"),                    // blank entry hides the entry 0: spins
+				"2=-,0=" + c15Hex("4@a@b"),                    // blank entry above the observed distance: not looked at
+				"3=" + c15Hex("abc@x@y"),                      // Atoi fails
+				"1=" + c15Hex("+2@x@y"), "1=" + c15Hex("002"), // Atoi accepts a sign, leading zeros, no separator
+				"1=" + c15Hex("99@a@b"), "1=" + c15Hex("-3@a@b"), // no such taxon
+				"0=" + c15Hex("5@sp@5@family@x"), // separators in the name
+			} {
+				emit(op + " " + Q + " " + R + " 4 " + T + " " + ix)
+			}
+		}
+		emit("sl2 " + Q + " " + R + " 4 " + T + " -") // obitag2 on a data base that is not indexed: log.Fatalf
+		emit("sl1 " + Q + " " + R + "," + c15Hex("acgtacgtat") + " 4,5 " + T + " 0=" + c15Hex("4@a@b") + ";1=" + c15Hex("5@a@b"))
+		emit("sl2 " + Q + " " + R + "," + c15Hex("acgtacgtat") + " 4,5 " + T + " 0=" + c15Hex("4@a@b") + ";-") // second best reference not indexed
+		emit("sl1 " + c15Hex("tttttttttt") + " " + R + " 4 " + T + " _")                                       // identity < 0.5: the index is not read
+	}
+	// obitag2.CLIAssignTaxonomy + Identify (taxa 3 and 6 are families): exact hits (two references with the bytes of the
+	// query and different taxa; one; a cluster head), the family stage, a query close to the other family, identity < 0.5,
+	// no cluster head at all (index out of range), a cluster head list without the family of the query
+	{
+		R := c15Hex("acgtacgtac") + "," + c15Hex("acgtacgtaa") + "," + c15Hex("ttgcattgca") + "," + c15Hex("acgtacgtac")
+		T := "1:1,2:1,3:2,4:3,5:3,6:1,7:6"
+		for _, q := range []string{"acgtacgtac", "acgtacgtaa", "acgtacgtag", "ttgcattgcc", "gggggggggg", "ttgcattgca"} {
+			emit("id3 " + c15Hex(q) + " " + R + " 4,5,7,5 " + T + " 1010 1,2,3,4")
+		}
+		emit("id3 " + c15Hex("acgtacgtag") + " " + R + " 4,5,7,5 " + T + " 0000 1,2,3,4")
+		emit("id3 " + c15Hex("acgtacgtag") + " " + R + " 4,5,7,5 " + T + " 0100 1,2,3,4")
+		emit("id3 " + c15Hex("acgtacgtag") + " " + R + " 4,5,7,5 " + T + " 0010 1,2,3,4")
+		emit("id3 " + c15Hex("acgtacgtag") + " " + R + " 4,5,2,1 1:1,2:1,4:2,5:2 1111 1,1,1,1") // no family in the taxonomy
+		emit("id3 " + c15Hex("acgtacgtag") + " " + R + " 9,9,6,3 1:1,3:1,6:3,9:6 1111 1,1,1,1") // two families on one lineage
+	}
+	// identical references with different taxa; queries shorter than 4 bases; ambiguity codes
+	for _, c := range []string{
+		"id1 " + c15Hex("acgtacgtac") + " " + c15Hex("acgtacgtac") + "," + c15Hex("acgtacgtac") + "," + c15Hex("acgtacgtac") + " 4,5,3 1:1,2:1,3:1,4:2,5:2",
+		"id2 " + c15Hex("acgtacgtac") + " " + c15Hex("acgtacgtac") + "," + c15Hex("acgtacgtac") + " 4,5 1:1,2:1,3:1,4:2,5:2",
+		"ix 0 " + c15Hex("acgtacgtac") + "," + c15Hex("acgtacgtac") + "," + c15Hex("acgtacgtaa") + " 4,3,5 1:1,2:1,3:1,4:2,5:2",
+		"id1 " + c15Hex("ac") + " " + c15Hex("ac") + "," + c15Hex("acg") + "," + c15Hex("a") + " 4,5,3 1:1,2:1,3:1,4:2,5:2",
+		"id2 " + c15Hex("acg") + " " + c15Hex("ac") + "," + c15Hex("acgt") + "," + c15Hex("tcg") + " 4,5,3 1:1,2:1,3:1,4:2,5:2",
+		"fc1 " + c15Hex("a") + " " + c15Hex("a") + "," + c15Hex("c") + "," + c15Hex("aa"),
+		"fc2 " + c15Hex("acgtnacgtacgt") + " " + c15Hex("acgtaacgtacgt") + "," + c15Hex("acgtcacgtacgt"),
+		"fc1 " + c15Hex("acgtacgtacgtacgtacgt") + " " + c15Hex("acgtacgtacgtacgtacgt") + "," + c15Hex("nnnnnnnnnnnnnnnnnnnn"),
+		"ix 0 " + c15Hex("acgtrcgtac") + "," + c15Hex("acgtacgtac") + " 4,5 1:1,2:1,3:1,4:2,5:2",
+		// known finding C15-iupac-prefilter (found by the random IUPAC cases): three identical references at distance 1 of
+		// the query ktagatak (FastLCSScore matches k with t); the first is compared without bound, the two others by
+		// D1Or0, which compares bytes: two mismatches, dropped although tied
+		"fc1 " + c15Hex("ktagatak") + " " + c15Hex("atagatat") + "," + c15Hex("atagatat") + "," + c15Hex("atagatat"),
+		"fc2 " + c15Hex("ktagatak") + " " + c15Hex("atagatat") + "," + c15Hex("atagatat") + "," + c15Hex("atagatat"),
+	} {
+		emit(c)
+	}
+
 	// ---- random cases
 	n := 1500
 	if tier == "thorough" {
@@ -1170,8 +1765,68 @@ func (c15) Gen(rng *rand.Rand, tier string, emit func(string)) {
 				q = []byte("g")
 			}
 		}
+		switch g.rng.Intn(30) {
+		case 0: // a query shorter than 4 bases: no 4-mer at all
+			q = g.word(1+g.rng.Intn(3), "acgt")
+		case 1: // identical references (their taxa are drawn independently)
+			k := g.rng.Intn(len(refs))
+			refs = append(refs, append([]byte{}, refs[k]...), append([]byte{}, refs[k]...))
+		case 2: // ambiguity codes (outside the assumptions of the theorems: oracle failures are only counted)
+			if g.rng.Intn(2) == 0 {
+				q = g.iupacify(q)
+			} else {
+				k := g.rng.Intn(len(refs))
+				refs[k] = g.iupacify(refs[k])
+			}
+		case 3: // many candidates tied on the shared 4-mer count (unstable sort) and on the distance
+			k := g.rng.Intn(len(refs))
+			for i := 0; i < 6; i++ {
+				refs = append(refs, g.spreadSubs(refs[k], 1))
+			}
+		}
 		t := g.taxo(1 + g.rng.Intn(12))
 		tx := g.taxids(t, len(refs))
+		if g.rng.Intn(11) == 0 && c15Acgt(q) { // obitag2: exact-match table and two-stage Identify
+			if len(refs) > 8 {
+				refs, tx = refs[:8], tx[:8]
+			}
+			ok := true
+			for _, r := range refs {
+				ok = ok && c15Acgt(r)
+			}
+			if ok {
+				if g.rng.Intn(3) == 0 { // the query has the bytes of a reference (and maybe of several)
+					q = append([]byte{}, refs[g.rng.Intn(len(refs))]...)
+				}
+				heads := make([]byte, len(refs))
+				cn := make([]int, len(refs))
+				pHead := 1 + g.rng.Intn(4)
+				for i := range refs {
+					heads[i] = '0'
+					if g.rng.Intn(4) < pHead {
+						heads[i] = '1'
+					}
+					cn[i] = 1 + g.rng.Intn(9)
+				}
+				emit(fmt.Sprintf("id3 %s %s %s %s %s %s", hx(q), c15List(refs), c15Ints(tx), c15Taxo(t), heads, c15Ints(cn)))
+				continue
+			}
+		}
+		if g.rng.Intn(12) == 0 { // the selection loop on arbitrary indices
+			if len(refs) > 4 {
+				refs, tx = refs[:4], tx[:4]
+			}
+			op := "sl1"
+			if g.rng.Intn(2) == 0 {
+				op = "sl2"
+			}
+			giv := make([]c15Given, len(refs))
+			for j := range giv {
+				giv[j] = g.given(t, op == "sl2")
+			}
+			emit(fmt.Sprintf("%s %s %s %s %s %s", op, hx(q), c15List(refs), c15Ints(tx), c15Taxo(t), c15ShowGiven(giv)))
+			continue
+		}
 		switch r := g.rng.Intn(20); {
 		case r < 7:
 			emit(fmt.Sprintf("fc%d %s %s", 1+g.rng.Intn(2), hx(q), c15List(refs)))
